@@ -1,2 +1,354 @@
-/- placeholder index until the relational development is merged -/
-import PyXABProofs.Props.C06
+/-
+  Property group C16: equivariance under per-dimension positive affine maps of the domain.
+
+  "Translating the domain, or scaling it by a positive factor, and feeding the same rewards
+  yields exactly the translated/scaled sequence of points: no decision of any algorithm depends
+  on absolute coordinates.  Exception: DOO's default diameter function (invariant under
+  translation, not under scaling)."
+
+  `φ : Aff α` is the map `x_j ↦ a_j·x_j + b_j` (`φ.iv`, `φ.box`, `φ.pt` act on intervals, cells
+  and points; `φ.draw` maps the random split points of a `make_children` call with the
+  coefficients of the split axis).  All statements are over an arbitrary linearly ordered field.
+  Vocabulary: `Spec/RelSpec.lean`; helper lemmas: `Lemmas/RL_*.lean`.
+-/
+import PyXABProofs.Lemmas.RL_Runs
+import PyXABProofs.Lemmas.RL_SOO
+import Mathlib.Algebra.Order.Field.Rat
+import Mathlib.Tactic.NormNum.Basic
+
+namespace PyXAB.C16
+open Rel RL
+set_option linter.unusedSectionVars false
+
+variable {α : Type} [Field α] [LinearOrder α] [IsStrictOrderedRing α]
+
+/-! ## 1. Geometry -/
+
+/-- `(a + b)/2` commutes with `φ` -/
+theorem mid_affine (φ : Aff α) (j : Nat) (x y : α) :
+    mid (φ.ap j x) (φ.ap j y) = φ.ap j (mid x y) :=
+  (aff_ap_mid φ j x y).symm
+
+theorem Iv_mid_affine (φ : Aff α) (j : Nat) (i : Iv α) : (φ.iv j i).mid = φ.ap j i.mid :=
+  aff_iv_mid φ j i
+
+/-- the centre of the mapped cell is the mapped centre (and has the same length) -/
+theorem cpoint_affine (φ : Aff α) (b : Box α) :
+    Box.cpoint (φ.box b) = φ.pt (Box.cpoint b) ∧
+      (Box.cpoint (φ.box b)).length = (Box.cpoint b).length :=
+  ⟨aff_cpoint_box φ b, aff_cpoint_box_length φ b⟩
+
+/-- the identity behind the `K`-ary case (NumPy's `linspace` operation order) -/
+theorem kary_boundary_identity (a b lo hi : α) (i K : Nat) :
+    (i : α) * ((a * hi + b - (a * lo + b)) / (K : α)) + (a * lo + b) =
+      a * ((i : α) * ((hi - lo) / (K : α)) + lo) + b := by
+  ring
+
+/-- `make_children` geometry of ALL five partition classes commutes with `φ` (no hypothesis on
+the draw: an out-of-range split axis gives `[]` on both sides). -/
+theorem childBoxes_affine (φ : Aff α) (k : Kind) (b : Box α) (d : Draw α) :
+    childBoxes k (φ.box b) (φ.draw d) = (childBoxes k b d).map φ.box :=
+  aff_childBoxes φ k b d
+
+/-- an out-of-range split axis gives no children, on both sides (every class except
+`DimensionBinaryPartition`, which ignores the axis) -/
+theorem childBoxes_dim_out_of_range (φ : Aff α) (k : Kind) (hk : k ≠ .dimBinary) (b : Box α)
+    (d : Draw α) (hd : b.length ≤ d.dim) :
+    childBoxes k b d = [] ∧ childBoxes k (φ.box b) (φ.draw d) = [] := by
+  have h0 : childBoxes k b d = [] := by
+    have hn : b[d.dim]? = none := List.getElem?_eq_none hd
+    cases k with
+    | dimBinary => exact absurd rfl hk
+    | binary => simp only [childBoxes, hn]
+    | randBinary => simp only [childBoxes, splitChain, hn]
+    | kary K => simp only [childBoxes, hn]
+    | randKary K => simp only [childBoxes, splitChain, hn]
+  exact ⟨h0, by rw [aff_childBoxes, h0]; rfl⟩
+
+theorem childBoxes_affine_length (φ : Aff α) (k : Kind) (b : Box α) (d : Draw α) :
+    (childBoxes k (φ.box b) (φ.draw d)).length = (childBoxes k b d).length :=
+  aff_childBoxes_length φ k b d
+
+/-- the closed containment test of `Zooming.receive_reward` does not see `φ` (this is where
+`a_j > 0` is needed) -/
+theorem contains_affine (φ : Aff α) (hφ : φ.Pos) (b : Box α) (x : List α) :
+    Zooming.contains (φ.box b) (φ.pt x) = Zooming.contains b x :=
+  pos_contains hφ b x
+
+/-- what NumPy guarantees about the random choices is preserved by `φ` (split points stay in
+their interval, sorted) -/
+theorem drawOK_affine (φ : Aff α) (hφ : φ.Pos) (k : Kind) (b : Box α) (d : Draw α)
+    (h : DrawOK k b d) : DrawOK k (φ.box b) (φ.draw d) :=
+  pos_drawOK hφ k b d h
+
+/-- `φ` is strictly monotone in every coordinate -/
+theorem ap_le_iff_affine (φ : Aff α) (hφ : φ.Pos) (j : Nat) (x y : α) :
+    φ.ap j x ≤ φ.ap j y ↔ x ≤ y :=
+  pos_ap_le_iff hφ j x y
+
+/-! ## 2. Tree level: the partition operations commute with mapping all boxes -/
+
+theorem makeChildren_affine {σ : Type} (φ : Aff α) (P : Part α σ) (s0 : σ) (p : Nat) (nl : Bool)
+    (d : Draw α) :
+    (partMapBox φ.box P).makeChildren s0 p nl (φ.draw d) =
+      mapRes1 (partMapBox φ.box) (P.makeChildren s0 p nl d) :=
+  makeChildren_map (aff_boxEquivariant φ) P s0 p nl d
+
+theorem makeChildrenD_affine {σ : Type} (φ : Aff α) (P : Part α σ) (s0 : σ) (p : Nat) (nl : Bool)
+    (ds : List (Draw α)) :
+    (partMapBox φ.box P).makeChildrenD s0 p nl (ds.map φ.draw) =
+      mapRes (partMapBox φ.box) (List.map φ.draw) (P.makeChildrenD s0 p nl ds) :=
+  makeChildrenD_map (aff_boxEquivariant φ) P s0 p nl ds
+
+theorem expand_affine {σ : Type} (φ : Aff α) (P : Part α σ) (s0 : σ) (p : Nat) (ds : List (Draw α)) :
+    (partMapBox φ.box P).expand s0 p (ds.map φ.draw) =
+      mapRes (partMapBox φ.box) (List.map φ.draw) (P.expand s0 p ds) :=
+  expand_map (aff_boxEquivariant φ) P s0 p ds
+
+theorem deepen_affine {σ : Type} (φ : Aff α) (P : Part α σ) (s0 : σ) (ds : List (Draw α)) :
+    (partMapBox φ.box P).deepen s0 (ds.map φ.draw) =
+      mapRes (partMapBox φ.box) (List.map φ.draw) (P.deepen s0 ds) :=
+  deepen_map (aff_boxEquivariant φ) P s0 ds
+
+theorem init_affine {σ : Type} (φ : Aff α) (k : Kind) (domain : Box α) (s0 : σ) :
+    Part.init k (φ.box domain) s0 = partMapBox φ.box (Part.init k domain s0) := rfl
+
+/-! ## 3. Algorithm level -/
+
+section treeBandits
+variable {R S : Type} [LE S] [DecidableLE S] [Max S] [Min S] [Inhabited S] [Inhabited R]
+
+/-- T-HOO, `pull`: same cell id; the states stay related. -/
+theorem HOO_pull_affine (φ : Aff α) (s : HOO α R S) :
+    HOO.pull (hooMapBox φ.box s) = mapRes (hooMapBox φ.box) id (HOO.pull s) :=
+  hoo_pull_map φ.box s
+
+/-- T-HOO, `receive_reward` with mapped draws keeps the relation. -/
+theorem HOO_receive_affine (φ : Aff α) (cfg : HOOCfg R S) (s : HOO α R S) (r : R)
+    (ds : List (Draw α)) :
+    HOO.receive cfg (hooMapBox φ.box s) r (ds.map φ.draw) =
+      mapRes (hooMapBox φ.box) (List.map φ.draw) (HOO.receive cfg s r ds) :=
+  hoo_receive_map (aff_boxEquivariant φ) cfg s r ds
+
+theorem HOO_init_affine (φ : Aff α) (cfg : HOOCfg R S) (k : Kind) (domain : Box α)
+    (ds : List (Draw α)) :
+    HOO.init cfg k (φ.box domain) (ds.map φ.draw) =
+      mapRes (hooMapBox φ.box) (List.map φ.draw) (HOO.init cfg k domain ds) :=
+  hoo_init_map (aff_boxEquivariant φ) cfg k domain ds
+
+/-- T-HOO, whole runs: on the mapped domain, with mapped draws and the same rewards, the run
+fails with the same exception or produces the same history of (cell id, reward) and the mapped
+final tree. -/
+theorem HOO_run_affine (φ : Aff α) (cfg : HOOCfg R S) (k : Kind) (domain : Box α)
+    (ds0 : List (Draw α)) (inputs : List (R × List (Draw α))) :
+    HOO.run cfg k (φ.box domain) (ds0.map φ.draw) (inputs.map (fun x => (x.1, x.2.map φ.draw))) =
+      mapRes (hooMapBox φ.box) id (HOO.run cfg k domain ds0 inputs) :=
+  hoo_run_map (aff_boxEquivariant φ) cfg k domain ds0 inputs
+
+/-- HCT / VHCT -/
+theorem HCT_pull_affine (φ : Aff α) (cfg : HCTCfg R S) (s : HCT α R S) :
+    HCT.pull cfg (hctMapBox φ.box s) = mapRes (hctMapBox φ.box) id (HCT.pull cfg s) :=
+  hct_pull_map φ.box cfg s
+
+theorem HCT_receive_affine (φ : Aff α) (cfg : HCTCfg R S) (s : HCT α R S) (r : R)
+    (ds : List (Draw α)) :
+    HCT.receive cfg (hctMapBox φ.box s) r (ds.map φ.draw) =
+      mapRes (hctMapBox φ.box) (List.map φ.draw) (HCT.receive cfg s r ds) :=
+  hct_receive_map (aff_boxEquivariant φ) cfg s r ds
+
+theorem HCT_init_affine (φ : Aff α) (cfg : HCTCfg R S) (k : Kind) (domain : Box α)
+    (ds : List (Draw α)) :
+    HCT.init cfg k (φ.box domain) (ds.map φ.draw) =
+      mapRes (hctMapBox φ.box) (List.map φ.draw) (HCT.init cfg k domain ds) :=
+  hct_init_map (aff_boxEquivariant φ) cfg k domain ds
+
+theorem HCT_run_affine (φ : Aff α) (cfg : HCTCfg R S) (k : Kind) (domain : Box α)
+    (ds0 : List (Draw α)) (inputs : List (R × List (Draw α))) :
+    HCT.run cfg k (φ.box domain) (ds0.map φ.draw) (inputs.map (fun x => (x.1, x.2.map φ.draw))) =
+      mapRes (hctMapBox φ.box) id (HCT.run cfg k domain ds0 inputs) :=
+  hct_run_map (aff_boxEquivariant φ) cfg k domain ds0 inputs
+
+end treeBandits
+
+section zooming
+variable {R S : Type} [LE S] [DecidableLE S] [Inhabited S]
+
+/-- Zooming (the algorithm which reads coordinates), `pull`: same arm index, the proposed point
+is `φ.pt` of the original one. -/
+theorem Zooming_pull_affine (φ : Aff α) (cfg : ZoomCfg R S) (s : Zooming α S) :
+    Zooming.pull cfg (zoomMap φ.box φ.pt s) =
+      mapRes (zoomMap φ.box φ.pt) (fun v => (v.1, φ.pt v.2)) (Zooming.pull cfg s) :=
+  zoom_pull_map cfg φ.box φ.pt s
+
+/-- Zooming, `receive_reward` with mapped draws keeps the relation (needs `a_j > 0`). -/
+theorem Zooming_receive_affine (φ : Aff α) (hφ : φ.Pos) (cfg : ZoomCfg R S) (s : Zooming α S)
+    (r : R) (ds : List (Draw α)) :
+    Zooming.receive cfg (zoomMap φ.box φ.pt s) r (ds.map φ.draw) =
+      mapRes (zoomMap φ.box φ.pt) (List.map φ.draw) (Zooming.receive cfg s r ds) :=
+  zoom_receive_map (aff_zoomEquivariant φ hφ) cfg s r ds
+
+theorem Zooming_init_affine (φ : Aff α) (hφ : φ.Pos) (cfg : ZoomCfg R S) (k : Kind)
+    (domain : Box α) (ds : List (Draw α)) :
+    Zooming.init (S := S) cfg k (φ.box domain) (ds.map φ.draw) =
+      mapRes (zoomMap φ.box φ.pt) (List.map φ.draw) (Zooming.init cfg k domain ds) :=
+  zoom_init_map (aff_zoomEquivariant φ hφ) cfg k domain ds
+
+/-- Zooming, whole runs: same exception, or the same arm indices, the `φ`-mapped points, and the
+mapped final state. -/
+theorem Zooming_run_affine (φ : Aff α) (hφ : φ.Pos) (cfg : ZoomCfg R S) (k : Kind)
+    (domain : Box α) (ds0 : List (Draw α)) (inputs : List (Nat × R × List (Draw α))) :
+    zoomRun cfg k (φ.box domain) (ds0.map φ.draw)
+        (inputs.map (fun x => (x.1, x.2.1, x.2.2.map φ.draw))) =
+      mapRes (zoomMap φ.box φ.pt) (List.map (fun v => (v.1, φ.pt v.2)))
+        (zoomRun cfg k domain ds0 inputs) := by
+  unfold zoomRun
+  rw [zoom_init_map (aff_zoomEquivariant φ hφ)]
+  cases Zooming.init cfg k domain ds0 with
+  | error e => rfl
+  | ok x =>
+    obtain ⟨s0, ds'⟩ := x
+    exact runM_map (fun s x => zoomRoundQ_map (aff_zoomEquivariant φ hφ) cfg s x) inputs s0
+
+end zooming
+
+section sweepers
+variable {S : Type} [LE S] [DecidableLE S] [Inhabited S]
+
+/-- SOO: same cell, mapped remaining draws, related states (the `time` label is arbitrary) -/
+theorem SOO_pull_affine (φ : Aff α) (negInf : S) (s : SOO α S) (time : Nat) (ds : List (Draw α)) :
+    SOO.pull negInf (sooMapBox φ.box s) time (ds.map φ.draw) =
+      mapRes (sooMapBox φ.box) (fun r => (r.1.map φ.draw, r.2)) (SOO.pull negInf s time ds) :=
+  soo_pull_map (aff_boxEquivariant φ) negInf s time ds
+
+theorem SOO_receive_affine (φ : Aff α) (s : SOO α S) (r : S) :
+    SOO.receive (sooMapBox φ.box s) r = mapRes1 (sooMapBox φ.box) (SOO.receive s r) :=
+  soo_receive_map φ.box s r
+
+/-- SOO, whole runs from the initial state: same exception or the same sequence of cells -/
+theorem SOO_run_affine (φ : Aff α) (negInf : S) (k : Kind) (domain : Box α) (hmax : Nat)
+    (inputs : List (TIn α S)) :
+    runM (sooRound negInf) (SOO.init negInf k (φ.box domain) hmax)
+        (inputs.map (fun x => (x.1, x.2.1.map φ.draw, x.2.2))) =
+      mapRes (sooMapBox φ.box) (List.map id)
+        (runM (sooRound negInf) (SOO.init negInf k domain hmax) inputs) :=
+  runM_map (fun s x => soo_round_map (aff_boxEquivariant φ) negInf s x) inputs
+    (SOO.init negInf k domain hmax)
+
+theorem SequOOL_pull_affine (φ : Aff α) (negInf : S) (s : SequOOL α S) (time : Nat)
+    (ds : List (Draw α)) :
+    SequOOL.pull negInf (seqMapBox φ.box s) time (ds.map φ.draw) =
+      mapRes (seqMapBox φ.box) (fun r => (r.1.map φ.draw, r.2)) (SequOOL.pull negInf s time ds) :=
+  seq_pull_map (aff_boxEquivariant φ) negInf s time ds
+
+theorem SequOOL_receive_affine (φ : Aff α) (s : SequOOL α S) (r : S) :
+    SequOOL.receive (seqMapBox φ.box s) r = mapRes1 (seqMapBox φ.box) (SequOOL.receive s r) :=
+  seq_receive_map φ.box s r
+
+theorem SequOOL_run_affine (φ : Aff α) (negInf : S) (k : Kind) (domain : Box α) (hmax : Nat)
+    (inputs : List (TIn α S)) :
+    runM (seqRound negInf) (SequOOL.init k (φ.box domain) hmax)
+        (inputs.map (fun x => (x.1, x.2.1.map φ.draw, x.2.2))) =
+      mapRes (seqMapBox φ.box) (List.map id)
+        (runM (seqRound negInf) (SequOOL.init k domain hmax) inputs) :=
+  runM_map (fun s x => seq_round_map (aff_boxEquivariant φ) negInf s x) inputs
+    (SequOOL.init k domain hmax)
+
+end sweepers
+
+/-! ## 4. DOO's default diameter function -/
+
+/-- scaling law: the squared half-width picks up the square of the factor -/
+theorem halfWidthSq_affine (φ : Aff α) (j : Nat) (iv : Iv α) :
+    halfWidthSq (φ.iv j iv) = φ.co j ^ 2 * halfWidthSq iv :=
+  halfWidthSq_aff φ j iv
+
+/-- invariant under translations -/
+theorem halfWidthSq_translation_invariant (φ : Aff α) (hφ : φ.IsTranslation) (j : Nat)
+    (iv : Iv α) : halfWidthSq (φ.iv j iv) = halfWidthSq iv := by
+  rw [halfWidthSq_aff, transl_co_eq hφ j, one_pow, one_mul]
+
+/-- scaling by 2 changes it: the documented exception is real -/
+theorem halfWidthSq_scaling_counterexample :
+    ∃ (φ : Aff ℚ) (iv : Iv ℚ), φ.Pos ∧ halfWidthSq (φ.iv 0 iv) ≠ halfWidthSq iv := by
+  refine ⟨⟨[2], [0]⟩, ⟨0, 1⟩, ?_, ?_⟩
+  · intro x hx
+    simp only [List.mem_singleton] at hx
+    subst hx
+    norm_num
+  · rw [halfWidthSq_aff]
+    norm_num [halfWidthSq, Iv.mid, mid, Aff.co]
+
+/-! ## 5. Non-vacuity over ℚ -/
+
+/-- `x ↦ 2x + 1`, `y ↦ 3y − 1` -/
+def exφ : Aff ℚ := ⟨[2, 3], [1, -1]⟩
+
+theorem exφ_pos : exφ.Pos := by
+  intro x hx
+  simp only [exφ, List.mem_cons, List.not_mem_nil, or_false] at hx
+  rcases hx with rfl | rfl <;> norm_num
+
+def exBox : Box ℚ := [⟨0, 1⟩, ⟨-1, 3⟩]
+
+example : exφ.box exBox = [⟨1, 3⟩, ⟨-4, 8⟩] := by decide +kernel
+example : exφ.pt (Box.cpoint exBox) = [2, 2] := by decide +kernel
+example : Box.cpoint (exφ.box exBox) = [2, 2] := by decide +kernel
+
+/-- all five kinds on a concrete box, with a concrete draw on axis 1 -/
+example : ∀ k ∈ [Kind.binary, .randBinary, .dimBinary, .kary 3, .randKary 3],
+    childBoxes k (exφ.box exBox) (exφ.draw ⟨1, [0, 2]⟩) =
+      (childBoxes k exBox ⟨1, [0, 2]⟩).map exφ.box ∧ (childBoxes k exBox ⟨1, [0, 2]⟩).length ≥ 2 := by
+  decide +kernel
+
+theorem exDrawOK : DrawOK (.randKary 3) exBox ⟨1, [0, 2]⟩ := by
+  refine ⟨by decide, by decide, rfl, ?_⟩
+  show (-1 : ℚ) ≤ 0 ∧ (0 : ℚ) ≤ 2 ∧ (2 : ℚ) ≤ 3 ∧ True
+  norm_num
+
+example : DrawOK (.randKary 3) (exφ.box exBox) (exφ.draw ⟨1, [0, 2]⟩) :=
+  drawOK_affine exφ exφ_pos _ _ _ exDrawOK
+
+/-! concrete runs over ℚ (evaluated by the kernel, independently of the theorems above) -/
+
+def exZCfg : ZoomCfg ℚ ℚ where
+  negInf := -1000
+  zero := 0
+  indexOf := fun avg phase pulls => avg + 8 * phase / (2 + pulls)
+  upd := fun avg pulls r => (avg * pulls + r) / (pulls + 1)
+  refine := fun _ pulls depth => decide (depth ≤ pulls)
+
+def exInputs : List (Nat × ℚ × List (Draw ℚ)) :=
+  [(0, 1 / 2, [⟨1, []⟩]), (2, 1 / 3, [⟨0, []⟩]), (0, 1, [⟨1, []⟩]), (1, 1 / 5, [⟨0, []⟩])]
+
+/-- the run succeeds (so `Zooming_run_affine` is not about two failing runs) and refines cells -/
+example : ((zoomRun exZCfg .binary exBox [⟨0, []⟩] exInputs).toOption.map
+    (fun r => (r.2.length, decide (r.1.P.nodes.length > 3)))) = some (4, true) := by decide +kernel
+
+/-- the points proposed on the mapped domain are the mapped points, the arm indices are equal -/
+example : (outs (zoomRun exZCfg .binary (exφ.box exBox) ([⟨0, []⟩].map exφ.draw)
+      (exInputs.map (fun x => (x.1, x.2.1, x.2.2.map exφ.draw))))).toOption =
+    (outs (zoomRun exZCfg .binary exBox [⟨0, []⟩] exInputs)).toOption.map
+      (List.map (fun v => (v.1, exφ.pt v.2))) := by decide +kernel
+
+def exHCfg : HOOCfg ℚ ℚ where
+  inf := 1000
+  negInf := -1000
+  mean0 := 0
+  meanOf := fun rs n => rs.sum / n
+  uOf := fun m c d => m + 4 / c + 1 / (d + 1)
+  expandOK := fun d => decide (d ≤ 3)
+
+def exHInputs : List (ℚ × List (Draw ℚ)) :=
+  [(1 / 2, [⟨1, [1]⟩]), (1 / 3, [⟨0, [1 / 4]⟩]), (1, [⟨1, [2]⟩]), (1 / 7, [⟨0, [1 / 2]⟩])]
+
+/-- T-HOO on a random-binary partition: the run succeeds, and the history of (cell id, reward) on
+the mapped domain with mapped split points is the same -/
+example : ((HOO.run exHCfg .randBinary exBox [⟨0, [1 / 3]⟩] exHInputs).toOption.map
+    (fun r => r.2.length)) = some 4 := by decide +kernel
+
+example : ((HOO.run exHCfg .randBinary (exφ.box exBox) ([⟨0, [1 / 3]⟩].map exφ.draw)
+      (exHInputs.map (fun x => (x.1, x.2.map exφ.draw)))).toOption.map (·.2)) =
+    ((HOO.run exHCfg .randBinary exBox [⟨0, [1 / 3]⟩] exHInputs).toOption.map (·.2)) := by
+  decide +kernel
+
+end PyXAB.C16
